@@ -112,13 +112,16 @@ func GlobalMoransI(data, weights []float64, locality mat.Matrix) (i, v, z float6
 	//  http://pro.arcgis.com/en/pro-app/tool-reference/spatial-statistics/h-global-morans-i-additional-math.htm
 	var s0, s1, s2 float64
 	var var2, var4 float64
+	var p2s []float64
+	if isDoer {
+		p2s = make([]float64, len(data))
+	}
 	for i, v := range data {
 		v -= mean
 		v *= v
 		var2 += v
 		var4 += v * v
 
-		var p2 float64
 		if isDoer {
 			doer.DoRowNonZero(i, func(i, j int, wij float64) {
 				wji := locality.At(j, i)
@@ -128,21 +131,33 @@ func GlobalMoransI(data, weights []float64, locality mat.Matrix) (i, v, z float6
 				v := wij + wji
 				s1 += v * v
 
-				p2 += v
+				p2s[i] += v
+
+				if wji == 0 {
+					// The zero element at (j, i) is not visited
+					// by DoRowNonZero, so include its terms here.
+					s1 += v * v
+					p2s[j] += v
+				}
 			})
-		} else {
-			for j := range data {
-				wij := locality.At(i, j)
-				wji := locality.At(j, i)
-
-				s0 += wij
-
-				v := wij + wji
-				s1 += v * v
-
-				p2 += v
-			}
+			continue
 		}
+
+		var p2 float64
+		for j := range data {
+			wij := locality.At(i, j)
+			wji := locality.At(j, i)
+
+			s0 += wij
+
+			v := wij + wji
+			s1 += v * v
+
+			p2 += v
+		}
+		s2 += p2 * p2
+	}
+	for _, p2 := range p2s {
 		s2 += p2 * p2
 	}
 	s1 *= 0.5
